@@ -5,6 +5,9 @@
 #       existing suite and fails the demo
 #   tools/mutant.sh run <dir|patch.diff> <ID> [<ID>...]
 #       apply the patch in a scratch worktree and run the quick checks against it (VERIF_REPO)
+#   tools/mutant.sh neutral <patch.diff>
+#       the same for a change that is meant to keep every property: runs a set of checks that
+#       together execute every suite and driver (C06 C09 C19 C17) and reports failures under ANY tag
 # The registered procedure (git -C /repo apply; ./check; git -C /repo checkout -- .) gives the same
 # verdicts; this script only avoids disturbing /repo while other work is going on.
 set -u
@@ -38,7 +41,22 @@ run)
   git -C "$wt" apply "$p" || { echo "patch does not apply"; exit 2; }
   cd /verif
   for id in "$@"; do
-    out=$(VERIF_REPO="$wt" ./check "$id" --tier quick 2>&1); rc=$?
+    out=$(VERIF_REPO="$wt" ./check "$id" --tier quick ${CHECK_ARGS:-} 2>&1); rc=$?
     echo "$id rc=$rc violations=$(echo "$out" | grep -c '^VIOLATION') $(echo "$out" | grep -A4 'first violation' | tr '\n' ' ' | cut -c1-400)"
+  done ;;
+neutral)
+  p=$1; shift
+  p=$(cd "$(dirname "$p")" && pwd)/$(basename "$p")
+  wt=/tmp/wt/run-$$
+  mkdir -p /tmp/wt
+  git -C /repo worktree add -q --detach "$wt" HEAD || exit 2
+  tag=$(python3 -c "import hashlib,sys;print(hashlib.sha1(sys.argv[1].encode()).hexdigest()[:10])" "$wt")
+  trap 'git -C /repo worktree remove --force "$wt" >/dev/null 2>&1; rm -rf "/tmp/verif-harness-$tag" "/verif/work/repo-tests-target-$tag"' EXIT
+  git -C "$wt" apply "$p" || { echo "patch does not apply"; exit 2; }
+  cd /verif
+  ids="$@"; [ -z "$ids" ] && ids="C06 C09 C19 C17"
+  for id in $ids; do
+    out=$(VERIF_REPO="$wt" ./check "$id" --tier quick 2>&1); rc=$?
+    echo "$id rc=$rc violations=$(echo "$out" | grep -c '^VIOLATION') $(echo "$out" | grep -E 'failures tagged with other|TOOL' | tr '\n' ' ' | cut -c1-300) $(echo "$out" | grep -A4 'first violation' | tr '\n' ' ' | cut -c1-400)"
   done ;;
 esac
